@@ -216,6 +216,15 @@ def g_c12(tier, seed):
                 samples=[dict(loop="fit_to_variational_target", optimizer="adamw")], failures=fails[:5], errors=[])
 
 
+@grid("C14")
+def g_c14(tier, seed):
+    cnt = []
+    fails = rt.rt_c14(tier, count=cnt)
+    return dict(evaluations=cnt[0] if cnt else 0, distinct_nontrivial=cnt[0] if cnt else 0,
+                rule="object zoo of every bijection class that can be built here (perturbed parameters) x four methods: eqx.filter_jit vs eager, repeated call, jax.vmap over inputs vs Python loop; pytree flatten/unflatten and tree_serialise_leaves round trips; distributions under jit",
+                samples=[dict(obj="Planar(leaky)", method="inverse")], failures=fails[:5], errors=[])
+
+
 @grid("C17")
 def g_c17(tier, seed):
     cnt = []
